@@ -115,6 +115,24 @@ func replayRing(args []string) error {
 			}
 			got = observeRing(rb, v.Obs.Cap)
 			stopMsg = earlyStopOK(rb, got.Range, got.RRange)
+			if stopMsg == "" {
+				// Stuttering step of the environment: Range / ReverseRange call-backs panic.
+				for _, rng := range []func(func(int) bool){rb.Range, rb.ReverseRange} {
+					func() {
+						defer func() {
+							if pv := recover(); pv != nil {
+								if _, ok := pv.(abortedRange); !ok {
+									panic(pv)
+								}
+							}
+						}()
+						rng(func(int) bool { panic(abortedRange{}) })
+					}()
+				}
+				if again := observeRing(rb, v.Obs.Cap); !sameRingObs(again, got) {
+					stopMsg = "the observation changed after Range / ReverseRange call-backs panicked"
+				}
+			}
 		})
 		key := fmt.Sprintf("ring cap=%d ops=%s", v.Obs.Cap, opsKey(v.Ops))
 		switch {
@@ -243,6 +261,73 @@ type world interface {
 	has(i, v int) bool
 	extra(probe []int) string
 	name() string
+}
+
+// rangeAborter is implemented by the worlds that can take the stuttering
+// step "a Range call-back panics and the caller recovers": the set must be
+// left exactly as it was and must stay usable (Add, Has, Delete, Clear work).
+type rangeAborter interface {
+	abortRange() string
+}
+
+type abortedRange struct{}
+
+// abortProbe runs Range with a call-back that panics at the first element,
+// recovers, and then checks a mutation round trip with a fresh value.
+func abortProbe(i int, rng func(func(int) bool), add, del func(int), has func(int) bool, length func() int, fresh int) string {
+	func() {
+		defer func() {
+			if v := recover(); v != nil {
+				if _, ok := v.(abortedRange); !ok {
+					panic(v)
+				}
+			}
+		}()
+		rng(func(int) bool { panic(abortedRange{}) })
+	}()
+	n := length()
+	var msg string
+	pv, panicked := vh.Try(func() {
+		add(fresh)
+		if !has(fresh) || length() != n+1 {
+			msg = fmt.Sprintf("p%d: after a Range call-back panicked, Add(%d) is not visible (Has=%v Len=%d, was %d)", i+1, fresh, has(fresh), length(), n)
+		}
+		del(fresh)
+		if has(fresh) || length() != n {
+			msg = fmt.Sprintf("p%d: after a Range call-back panicked, Delete(%d) did not restore the set (Has=%v Len=%d, was %d)", i+1, fresh, has(fresh), length(), n)
+		}
+	})
+	if panicked {
+		return fmt.Sprintf("p%d: after a Range call-back panicked (and the caller recovered), a later Add/Delete panics: %v", i+1, pv)
+	}
+	return msg
+}
+
+func (w *mapWorld) abortRange() string {
+	for i, s := range w.p {
+		if s == nil {
+			continue
+		}
+		if m := abortProbe(i, s.Range, s.Add, s.Delete, s.Has, s.Len, 9001); m != "" {
+			return m
+		}
+	}
+	return ""
+}
+
+func (w *sortedWorld) abortRange() string {
+	for i, s := range w.p {
+		if s == nil {
+			continue
+		}
+		if m := abortProbe(i, s.Range, s.Add, s.Delete, s.Has, s.Len, 9001); m != "" {
+			return m
+		}
+		if m := abortProbe(i, s.Range, s.Add, s.Delete, s.Has, s.Len, -9001); m != "" {
+			return m
+		}
+	}
+	return ""
 }
 
 type mapWorld struct{ p []*container.MapSet[int] }
@@ -623,6 +708,13 @@ func replaySets(args []string) error {
 				}
 				got = w.observe()
 				extra = w.extra(probe)
+				if ra, ok := w.(rangeAborter); ok && extra == "" {
+					// Stuttering step of the environment: a Range call-back panics.
+					extra = ra.abortRange()
+					if extra == "" && !sameSetObs(w.observe(), got) {
+						extra = "the observation changed after a Range call-back panicked and an Add/Delete round trip"
+					}
+				}
 			})
 			key := w.name() + " " + setOpsKey(v.Ops)
 			switch {
